@@ -77,6 +77,10 @@ EXPLANATION += (
     " Round 9: no user of a TaxonomyTree accessor that hands out the tree's own container edits it (R-ALIAS/tree-state, whole package)."
 )
 
+EXPLANATION += (
+    ' Mean and variance of a node are S / N and (Q - S^2/N)/(N - 1) of the summed statistics (R-ARITH/moments, rule of C11); counts per million are 10^6 * data / row total (R-ARITH/cpm, rule of C07).'
+)
+
 RULE_TEXT = (
     "one obligation per key of each producer, per required read, per "
     "merge loop, per statistic, per use of the row index")
@@ -103,6 +107,14 @@ def check(ctx):
     check_merge_tables_agree(ctx)
     check_dataset_keys_as_given(ctx)
     check_count_thresholds(ctx)
+    # what is summed over the leaves becomes a mean and a variance by the
+    # textbook formulas (rule of C11)
+    from .C11 import check_moments
+    check_moments(ctx)
+    # ... of counts per million as the matrix class computes them (rule
+    # of C07)
+    from .C07 import check_cpm_formula
+    check_cpm_formula(ctx)
     # the rows a tree built from the reference file assigns to its leaves
     # are file positions (rule of C10): statistics are summed over them
     from .C10 import check_rows_are_file_positions
